@@ -159,6 +159,12 @@ func writeFiles(dir string, files []FileSpec) error {
 			}
 			continue
 		}
+		if f.HardTo != "" {
+			if err := os.Link(filepath.Join(dir, f.HardTo), p); err != nil {
+				return err
+			}
+			continue
+		}
 		mode := os.FileMode(0644)
 		if f.Mode != 0 {
 			mode = os.FileMode(f.Mode)
